@@ -11,6 +11,7 @@ func init() {
 			"arithmetic beyond 'read in units of 4 bytes with an all-zero test'.",
 		run: func(c *Ctx, r *Report) {
 			ruleMultiStream(c, r, "")
+			ruleSameSource(c, r, "")
 			// every member of a chain is a stream of its own: the container checks must have the exact
 			// relations (an empty member with zero records is valid) and LZMA2 chunk effects
 			ruleXZReaderChecks(c, r, "")
